@@ -1,7 +1,7 @@
 (* C08 property theorems.  Statements only, each closed by exact <lemma>, Print Assumptions beneath.
    Models: C08/Model.v; abstract models: C08/Spec.v; regenerated comparisons and tables: C08/Gen.v. *)
 From Coq Require Import ZArith.
-From Wz Require Import lib.Bytes C08.LibStr C08.Gen C08.Model C08.Spec C08.Proofs C08.ProofsMD.
+From Wz Require Import lib.Bytes C08.LibStr C08.Gen C08.Model C08.Spec C08.Proofs C08.ProofsMD C08.ProofsMM.
 Open Scope N_scope.
 
 (* ---------------------------------------------------------------- HeaderSet: representation invariant *)
@@ -175,3 +175,85 @@ Example C08_environ_view_example :
   eh_get_key e [120; 45; 102; 111; 111] = Some [49].
 Proof. vm_compute. split; reflexivity. Qed.
 Print Assumptions C08_environ_view_example.
+
+(* ---------------------------------------------------------------- MultiDict: refinement of every operation *)
+(* every operation (item set / add / setlist / setdefault / setlistdefault / update / |= / pop / popitem / poplist /
+   popitemlist / clear / del) on a well-formed state without empty rows yields the abstract multimap's new pair
+   list and its result or exception, and keeps the state well-formed; the guard mop_ok excludes exactly the
+   operations that store an empty row (known finding multidict-empty-list-items) *)
+Theorem C08_refine_multidict_step : forall d o,
+  md_good d -> mop_ok o = true ->
+  md_abs (fst (md_step d o)) = fst (mm_step (md_abs d) o) /\
+  snd (md_step d o) = snd (mm_step (md_abs d) o) /\
+  md_good (fst (md_step d o)).
+Proof. exact md_step_refines. Qed.
+Print Assumptions C08_refine_multidict_step.
+
+(* lifted to every operation sequence, from every constructor input *)
+Theorem C08_refine_multidict : forall a ops,
+  (match a with Some (AMulti d) => md_good d | _ => True end) -> forallb mop_ok ops = true ->
+  md_abs (md_exec (md_init a) ops) = mm_exec (md_abs (md_init a)) ops /\ md_good (md_exec (md_init a) ops).
+Proof. intros a ops Ha Hok. apply md_exec_refines; [apply good_init; exact Ha|exact Hok]. Qed.
+Print Assumptions C08_refine_multidict.
+
+Example C08_refine_multidict_example :
+  let ops := [MAdd [97] [49]; MAdd [98] [50]; MAdd [97] [51]; MSetDefault [99] [52]; MPop [98] None; MPopItem; MSetList [98] [[53]; [54]]] in
+  forallb mop_ok ops = true /\
+  md_exec (md_init None) ops = [([97], [[49]; [51]]); ([98], [[53]; [54]])] /\
+  mm_exec [] ops = [([97], [49]); ([97], [51]); ([98], [53]); ([98], [54])].
+Proof. vm_compute. repeat split. Qed.
+Print Assumptions C08_refine_multidict_example.
+
+(* every read of a good state is the abstract multimap's; items(multi=True), copy and to_dict(flat=False) are the
+   state itself as a value *)
+Theorem C08_multidict_reads_refine : forall d, md_good d ->
+  md_keys d = mm_keys (md_abs d) /\
+  (forall k, md_getlist d k = mm_getlist (md_abs d) k) /\
+  (forall k, d_mem k d = smem k (mm_keys (md_abs d))) /\
+  (forall k, md_getitem d k = match mm_getlist (md_abs d) k with v :: _ => Ok (OStr v) | [] => Err KeyError end) /\
+  md_items d = Ok (map (fun k => (k, hd [] (mm_getlist (md_abs d) k))) (mm_keys (md_abs d))) /\
+  md_items_multi d = md_abs d /\
+  md_init (Some (AMulti d)) = d.
+Proof. exact md_reads_refine. Qed.
+Print Assumptions C08_multidict_reads_refine.
+
+(* ---------------------------------------------------------------- Headers: index and slice operations *)
+Theorem C08_index_normalisation : forall len i,
+  ((0 <= i < Z.of_nat len)%Z -> norm_index len i = Some (Z.to_nat i)) /\
+  ((- Z.of_nat len <= i < 0)%Z -> norm_index len i = Some (Z.to_nat (i + Z.of_nat len))) /\
+  ((i < - Z.of_nat len \/ Z.of_nat len <= i)%Z -> norm_index len i = None).
+Proof. exact norm_index_spec. Qed.
+Print Assumptions C08_index_normalisation.
+
+Theorem C08_headers_index_ops : forall h i,
+  match norm_index (length h) i with
+  | Some n =>
+      (n < length h)%nat /\
+      hd_step h (HdDelIdx i) = (firstn n h ++ skipn (S n) h, Ok ONone) /\
+      hd_step h (HdPopIdx i) = (firstn n h ++ skipn (S n) h, Ok (OPair (fst (nth n h ([], []))) (snd (nth n h ([], []))))) /\
+      (forall k s, has_newline s = false ->
+         hd_step h (HdSetItemIdx i k (VStr s)) = (firstn n h ++ (k, s) :: skipn (S n) h, Ok ONone))
+  | None =>
+      hd_step h (HdDelIdx i) = (h, Err IndexError) /\ hd_step h (HdPopIdx i) = (h, Err IndexError) /\
+      (forall k s, has_newline s = false -> hd_step h (HdSetItemIdx i k (VStr s)) = (h, Err IndexError))
+  end.
+Proof. exact hd_index_ops. Qed.
+Print Assumptions C08_headers_index_ops.
+
+Theorem C08_headers_slice_ops : forall (h : headers) a b,
+  let s := clamp (length h) a O in
+  let e := Nat.max s (clamp (length h) b (length h)) in
+  (s <= e <= length h)%nat /\
+  slice_get h a b = firstn (e - s) (skipn s h) /\
+  hd_step h (HdDelSlice a b) = (firstn s h ++ skipn e h, Ok ONone) /\
+  (forall l new, hd_str_pairs l = Ok new -> hd_step h (HdSetItemSlice a b l) = (firstn s h ++ new ++ skipn e h, Ok ONone)) /\
+  h = firstn s h ++ slice_get h a b ++ skipn e h.
+Proof. exact hd_slice_ops. Qed.
+Print Assumptions C08_headers_slice_ops.
+
+Theorem C08_slice_clamp : forall len i dflt,
+  clamp len None dflt = dflt /\
+  ((0 <= i)%Z -> clamp len (Some i) dflt = Nat.min (Z.to_nat i) len) /\
+  ((i < 0)%Z -> clamp len (Some i) dflt = Z.to_nat (Z.max 0 (i + Z.of_nat len))).
+Proof. exact clamp_spec. Qed.
+Print Assumptions C08_slice_clamp.
